@@ -569,7 +569,8 @@ def run(ctx: core.Run):
         "kept current is proved for histories of PUBLIC mutators of the API classes (the rows of Generated/ClipCurrent.lean); "
         "writing layer._record.clipping, a divider block or layer.tagged_blocks directly bypasses every setter and is outside the claim",
         "in the theorem a structural edit may replace the tree by ANY tree (what an edit does to the tree is C09's subject); "
-        "`_update_record()` and the traversals are assumed not to raise",
+        "`_update_record()`, the traversals and whatever a mutator calls between a raw mutation and the recomputation that "
+        "covers it are assumed not to raise (asserts and exception paths are not part of the table)",
     ]
     quick = ctx.quick
     rng = ctx.rng
